@@ -25,6 +25,14 @@ ASSUMPTIONS = ["CPython ast parses /repo's source as the interpreter would"]
 MIN_INSTANCES = {"R-20a": 8, "R-20b": 8, "R-20c": 8}
 
 
+REF_BYTE_STEP = """
+byte = value & 0xff
+value >>= 8
+if byte:
+    msg.append(byte)
+"""
+
+
 def r20a(model, ctx):
     R = "R-20a"
     f = model.func(f"{PYRTL}::_StatementCompiler.emit_format")
@@ -94,10 +102,18 @@ def r20a(model, ctx):
             ((("isinstance(chunk, str)", False), ("chunk[1].endswith('s')", False)), "format(eval_value(sim, chunk[0]), chunk[1])")}
     ctx.check(got == want, R, "eval_format", "literal verbatim; format(value, spec); `s` through value_to_string",
               f"eval_format deviates: {sorted(got ^ want)}", f"{PYEVAL}:{fe.lineno}")
+    from ..engine import refsem
     fv = model.func(f"{PYEVAL}::value_to_string")
     t = unparse(fv)
-    ok = "byte = value & 255" in t and "value >>= 8" in t and "if byte:\n            msg.append(byte)" in t and "return msg.decode()" in t and \
-        "msg = bytearray()" in t
+    wl = [w for w in fv.body if isinstance(w, ast.While) and unparse(w.test) in ("value", "value != 0", "value > 0")]
+    need(len(wl) == 1, "value_to_string: the byte-unpacking loop was not found")
+    # one iteration: the low byte is taken, the value moves down by 8 bits, non-zero bytes are appended (compared by summary:
+    # `& 0xff ; >>= 8` and `divmod(value, 256)` are the same computation)
+    okb = refsem.compare_block(ctx, R, "value_to_string:iteration", f"{PYEVAL}:{wl[0].lineno}", "value_to_string (one iteration)",
+                               wl[0].body, [REF_BYTE_STEP], track=("value",),
+                               fact="low byte first; value >>= 8; zero bytes dropped",
+                               why="value_to_string must unpack bytes least-significant first and drop zero bytes.")
+    ok = "return msg.decode()" in t and "msg = bytearray()" in t
     ctx.check(ok, R, "value_to_string", "bytes unpacked LSB-first, NULs dropped, decoded as UTF-8",
               "value_to_string must unpack bytes least-significant first into a bytearray, drop zero bytes and decode it as UTF-8 "
               "(bytes.decode()); joining chr(byte) per byte turns multi-byte characters into mojibake", f"{PYEVAL}:{fv.lineno}")
@@ -121,6 +137,57 @@ def r20a(model, ctx):
     ok = "for bit in reversed(range(0, len(chunk.value), 8)):\n                        args += chunk.value[bit:bit + 8]" in t
     ctx.check(ok, R, "rtlil.emit_print:string-bytes", "`s` values are split into bytes, most significant first",
               "`s` values must be emitted byte by byte, most significant byte first", f"{RTLIL}:{fp.lineno}")
+
+
+def _format_spec_rejections(model, ctx, R):
+    fp = model.func(f"{AST_PY}::Format._parse_format_spec")
+
+    def group_fold(node):
+        """match.group("a", "b", ..)[k] and match.group("a") are match["a"]: the named groups, however they are read"""
+        if isinstance(node, ast.Subscript) and isinstance(node.value, ast.Call) and isinstance(node.value.func, ast.Attribute) and \
+                node.value.func.attr == "group" and isinstance(node.slice, ast.Constant) and isinstance(node.slice.value, int) and \
+                all(isinstance(a_, ast.Constant) for a_ in node.value.args) and node.slice.value < len(node.value.args):
+            return ast.Subscript(value=node.value.func.value, slice=ast.Constant(value=node.value.args[node.slice.value].value),
+                                 ctx=ast.Load())
+        if isinstance(node, ast.Call) and isinstance(node.func, ast.Attribute) and node.func.attr == "group" and len(node.args) == 1 and \
+                isinstance(node.args[0], ast.Constant) and isinstance(node.args[0].value, str):
+            return ast.Subscript(value=node.func.value, slice=ast.Constant(value=node.args[0].value), ctx=ast.Load())
+        return None
+    body = [b_ for b_ in fp.body if not (isinstance(b_, ast.Expr) and isinstance(b_.value, ast.Constant))]
+    rpaths = [p for p in run_paths(body, fold=group_fold, max_paths=20000) if p.how == "raise"]
+    need(len(rpaths) >= 8, f"_parse_format_spec: only {len(rpaths)} rejecting paths found")
+    # the match object is a local; conditions are reported in terms of it
+    msrc = [unparse(st.value) for st in fp.body if isinstance(st, ast.Assign) and unparse(st.targets[0]) == "match"]
+    need(len(msrc) == 1, "_parse_format_spec: the `match = ...fullmatch(spec)` binding was not found")
+    def show(n, _m=msrc[0]):
+        return unparse(n).replace(_m, "match")
+    raising = []        # for every rejecting path: the tests that were true on it
+    for p in rpaths:
+        raising.append({show(t) for t, pol in p.conds if pol} | {"not " + show(t) for t, pol in p.conds if not pol})
+    want = ["not match", "match['align'] == '^'", "match['grouping'] == ','", "match['type'] == 'n'", "shape.signed", "match['align'] == '='",
+            "match['show_base']", "match['width_zero'] != ''", "match['sign'] is not None", "match['grouping'] is not None",
+            "match['type'] == 's' and shape.width % 8 != 0"]
+
+    def rejected_under(w):
+        # a path whose *last* true test is w (the test that raises)
+        for p in rpaths:
+            pos = [show(t) if pol else "not " + show(t) for t, pol in p.conds]
+            if pos and pos[-1] == w:
+                return True
+        return False
+    for w in want:
+        ctx.check(rejected_under(w), R, f"_parse_format_spec:reject:{w}", "rejected with ValueError",
+                  f"_parse_format_spec no longer rejects specifiers with `{w}`", f"{AST_PY}:{fp.lineno}")
+    # the character/string restrictions apply to both `c` and `s`: their rejecting paths run under `type in ('c', 's')`
+    CS = ["shape.signed", "match['align'] == '='", "match['show_base']", "match['width_zero'] != ''", "match['sign'] is not None",
+          "match['grouping'] is not None"]
+    okcs = True
+    for w in CS:
+        hit = [p for p in rpaths if [show(t) if pol else "not " + show(t) for t, pol in p.conds][-1:] == [w]]
+        okcs = okcs and bool(hit) and all(("match['type'] in ('c', 's')", True) in {(show(t), pol) for t, pol in p.conds} for p in hit)
+    ctx.check(okcs, R, "_parse_format_spec:c/s-block", "character/string restrictions apply to both c and s",
+              "the restrictions on signedness, alignment, alternate form, zero fill, sign and grouping must apply to both `c` and `s`",
+              f"{AST_PY}:{fp.lineno}")
 
 
 def r20b(model, ctx):
@@ -147,21 +214,8 @@ def r20b(model, ctx):
                   "_parse_format_spec(format_spec, obj.shape()) immediately precedes the append",
                   "a (value, spec) chunk enters Format._chunks without passing through _parse_format_spec(format_spec, obj.shape()): "
                   "an invalid specifier would only fail when the statement is simulated or converted", f"{AST_PY}:{s.lineno}")
+    _format_spec_rejections(model, ctx, R)
     fp = model.func(f"{AST_PY}::Format._parse_format_spec")
-    tests = []
-    for s in ast.walk(fp):
-        if isinstance(s, ast.If) and any(isinstance(x, ast.Raise) for x in s.body):
-            tests.append(unparse(s.test))
-    want = ["not match", "match['align'] == '^'", "match['grouping'] == ','", "match['type'] == 'n'", "shape.signed", "match['align'] == '='",
-            "match['show_base']", "match['width_zero'] != ''", "match['sign'] is not None", "match['grouping'] is not None",
-            "match['type'] == 's' and shape.width % 8 != 0"]
-    for w in want:
-        ctx.check(w in tests, R, f"_parse_format_spec:reject:{w}", "rejected with ValueError",
-                  f"_parse_format_spec no longer rejects specifiers with `{w}`", f"{AST_PY}:{fp.lineno}")
-    cs = [s for s in ast.walk(fp) if isinstance(s, ast.If) and unparse(s.test) == "match['type'] in ('c', 's')"]
-    ctx.check(len(cs) == 1, R, "_parse_format_spec:c/s-block", "character/string restrictions apply to both c and s",
-              "the restrictions on signedness, alignment, alternate form, zero fill, sign and grouping must apply to both `c` and `s`",
-              f"{AST_PY}:{fp.lineno}")
     t = unparse(fp)
     ok = "match = Format._FORMAT_SPEC_PATTERN.fullmatch(spec)" in t
     ctx.check(ok, R, "_parse_format_spec:fullmatch", "the whole specifier must match the grammar", "the specifier must be matched with "
@@ -199,7 +253,16 @@ def r20c(model, ctx):
                   f"self.rhs.sign(stmt.test); found `{t.skeleton()}` with {[h.src for h in t.holes]} (testing only bit 0 fires on "
                   f"non-zero conditions whose LSB is clear)", f"{PYRTL}:{n.lineno}")
     t = unparse(f)
-    ok = "pin_blame(" in t and "AssertionError" in t and "kind = 'Assertion'" in t and "kind = 'Assumption'" in t
+    # the violation names: assigned per kind in an if-chain, or looked up in a table keyed by Property.Kind
+    names_ok = ("kind = 'Assertion'" in t and "kind = 'Assumption'" in t)
+    if not names_ok:
+        cls_ = model.cls(f"{PYRTL}::_StatementCompiler")
+        for tbl in ast.walk(cls_):
+            if isinstance(tbl, ast.Dict) and tbl.keys and all(k is not None for k in tbl.keys):
+                d = {unparse(k): (v.value if isinstance(v, ast.Constant) else None) for k, v in zip(tbl.keys, tbl.values)}
+                if d.get("Property.Kind.Assert") == "Assertion" and d.get("Property.Kind.Assume") == "Assumption":
+                    names_ok = True
+    ok = "pin_blame(" in t and "AssertionError" in t and names_ok
     ctx.check(ok, R, "on_Property:raise", "a failing assert/assume raises AssertionError (simulation stops)", "a failing assertion must raise "
               "AssertionError through pin_blame", f"{PYRTL}:{f.lineno}")
     f = model.func(f"{PYRTL}::_StatementCompiler.on_Print")
